@@ -15,7 +15,16 @@ Technique: every write to the buffer is an *event* at a MIR call terminator; `wr
 `fmt::Arguments` template constant (literal pieces and placeholders), values by single-definition chasing into term trees.  The CFG
 with events is an automaton over tokens (literal byte / decimal number / dynamic data byte); its language (whole buffer, one band,
 one colour run list, one run) is checked for inclusion in hand-written reference automata built from refs/sixel.json; tokens are
-assigned grammar roles by the trimmed product and each role's value provenance is compared with the required source."""
+assigned grammar roles by the trimmed product and each role's value provenance is compared with the required source.
+
+Robustness to behaviour-preserving refactorings (seeded/benign/C12-*): the clauses are decided on draw with its crate-private
+single-caller helpers expanded in place (`expanded_body`: sa/inline.py restricted to non-exported fns, so that Surface::view,
+ColorPalette::colors .. stay the vocabulary of the clauses; `thread_returns` removes the infeasible "helper failed, caller
+continues" paths); a `&mut` of the buffer is followed through moves and reborrows (`Sinks._alias_calls`), the buffer itself through
+moves; `for x in &c` reads as `c.iter()`; closures handed to iterator adaptors are evaluated path by path in draw's own terms
+(`closure_paths`), which decides `<slots>.filter(sample == colour).fold(0, |c, i| c | 1 << i)` and
+`while it.next_if(|next| next == (column + repeats, code)).is_some()` like the loops they replace; `extend(repeat(x).take(n))`
+is the loop writing x n times."""
 import json
 import os
 import re
@@ -88,6 +97,14 @@ def parse_bytes_text(text):
     return bytes(out)
 
 
+CANON_INTO_ITER = [
+    (r"^&('\w+ )?std::collections::HashMap<", "std::collections::HashMap::<K, V, S, A>::iter"),
+    (r"^&('\w+ )?std::collections::HashSet<", "std::collections::HashSet::<T, S, A>::iter"),
+    (r"^&('\w+ )?(\[.*\]|std::vec::Vec<.*>)$", "core::slice::<impl [T]>::iter"),
+    (r"^&('\w+ )?mut (\[.*\]|std::vec::Vec<.*>)$", "core::slice::<impl [T]>::iter_mut"),
+]
+
+
 class Terms:
     def __init__(self, body):
         self.b = body
@@ -149,6 +166,13 @@ class Terms:
             name = callee_name(t) or "<indirect>"
             if any(call_matches(t, p) for p in TRANSPARENT_CALLS) and t["args"]:
                 return self.opx(t["args"][0], seen)
+            if len(t["args"]) == 1 and call_matches(t, r"^std::iter::IntoIterator::into_iter$"):
+                # `for x in &collection` is `for x in collection.iter()`: one canonical term for both
+                self_ty = (t["fn"].get("generics") or [""])[0]
+                for rx, canon in CANON_INTO_ITER:
+                    if re.match(rx, self_ty):
+                        name = canon
+                        break
             return ("call", name, tuple(self.opx(a, seen) for a in t["args"]), bb)
         k = rv["k"]
         if k == "use":
@@ -362,6 +386,130 @@ def item_of(t):
 
 
 # =================================================================================================
+# closures: the value a closure returns, path by path, in terms of the creating body's terms
+# =================================================================================================
+class ClosureTerms(Terms):
+    """term trees of a closure body: local 1 (the environment) is the closure aggregate of the creating body, so a captured
+    variable reads as the creating body's term for it; parameters read as the given terms.  Calls inside the closure carry
+    (closure path, block) instead of a block number, so they never compare equal to a block of the creating body."""
+
+    def __init__(self, body, env, params):
+        Terms.__init__(self, body)
+        self.subst = {1: env}
+        for i, t in enumerate(params):
+            self.subst[2 + i] = t
+
+    def local(self, l, seen=frozenset()):
+        if l in self.subst:
+            return self.subst[l]
+        return Terms.local(self, l, seen)
+
+    def rvalue(self, d, seen):
+        r = Terms.rvalue(self, d, seen)
+        if r[0] == "call" and d[1] == "term" and len(r) == 4 and isinstance(r[3], int):
+            r = ("call", r[1], r[2], (self.b.path, r[3]))
+        return r
+
+
+def closure_of(prog, t):
+    """closure aggregate term -> its body, else None"""
+    t = uncell(t)
+    if t[0] == "agg" and t[1] == "closure":
+        return prog.body(t[2])
+    return None
+
+
+def closure_paths(prog, clo, params, limit=64):
+    """every path of a (loop free) closure from entry to return as (conditions, returned term, terms object):
+    conditions = [(discriminant term, value as int | None for `otherwise`, values excluded by `otherwise`)].
+    None when the closure is not understood (loops, more than `limit` paths, several creating-site shapes)."""
+    clo = uncell(clo)
+    cb = closure_of(prog, clo)
+    if cb is None or len(params) != cb.arg_count - 1:
+        return None
+    tm = ClosureTerms(cb, clo, params)
+    out = []
+    # (bb, conditions, last definition of _0, visited)
+    st = [(0, (), None, frozenset())]
+    while st:
+        bb, conds, ret, seen = st.pop()
+        if bb in seen or len(out) + len(st) > limit:
+            return None
+        seen = seen | {bb}
+        blk = cb.blocks[bb]
+        for si, s_ in enumerate(blk["stmts"]):
+            if s_["k"] == "assign" and s_["place"]["l"] == 0:
+                if s_["place"]["p"]:
+                    return None
+                ret = (bb, si, s_["rv"])
+        t = blk["term"]
+        k = t["k"]
+        if k == "return":
+            if ret is None:
+                return None
+            out.append((list(conds), tm.rvalue(ret, frozenset()), tm))
+        elif k == "goto":
+            st.append((t["t"], conds, ret, seen))
+        elif k in ("assert", "drop") and t["t"] >= 0:
+            st.append((t["t"], conds, ret, seen))
+        elif k == "call" and t["t"] >= 0:
+            if t["dest"]["l"] == 0:
+                if t["dest"]["p"]:
+                    return None
+                ret = (bb, "term", t)
+            st.append((t["t"], conds, ret, seen))
+        elif k == "switch":
+            d = tm.op(t["d"])
+            for v, tg in zip(t["vals"], t["targets"]):
+                st.append((tg, conds + ((d, int(v), ()),), ret, seen))
+            if not cb.blocks[t["otherwise"]]["term"]["k"] == "unreachable":
+                st.append((t["otherwise"], conds + ((d, None, tuple(int(v) for v in t["vals"])),), ret, seen))
+        else:
+            return None
+    return out
+
+
+def closure_truth(prog, clo, params):
+    """for a closure returning bool: the paths on which it returns true, each as a list of (term, truth) atoms whose conjunction
+    is that path's condition (`a && b` gives one path [(a, True), (b, True)]).  None when not understood."""
+    paths = closure_paths(prog, clo, params)
+    if paths is None:
+        return None
+    out = []
+    for conds, val, tm in paths:
+        atoms = []
+        for (d, v, excl) in conds:
+            if v is not None and v in (0, 1):
+                pol = bool(v)
+            elif v is None and excl == (0,):
+                pol = True
+            elif v is None and excl == (1,):
+                pol = False
+            else:
+                return None
+            d = uncell(d)
+            while d[0] == "un" and d[1] == "Not":
+                d, pol = uncell(d[2]), not pol
+            atoms.append((d, pol))
+        dead = False
+        work = [(val, True)]
+        while work:
+            v_, pol = work.pop()
+            v_ = uncell(v_)
+            if v_[0] == "int" and v_[1] in (0, 1):
+                dead = dead or bool(v_[1]) != pol
+            elif v_[0] == "un" and v_[1] == "Not":
+                work.append((v_[2], not pol))
+            elif v_[0] == "bin" and v_[1] == "BitAnd" and pol:
+                work += [(v_[2], True), (v_[3], True)]          # `a & b` on bools
+            else:
+                atoms.append((v_, pol))
+        if not dead:
+            out.append(atoms)
+    return out
+
+
+# =================================================================================================
 # compiled format templates (library/core/src/fmt/mod.rs, `fmt::Arguments` internal representation)
 # =================================================================================================
 def decode_fmt_template(tb):
@@ -483,8 +631,19 @@ class Event:
         self.kind = kind        # 'write_all' | 'write_fmt' | 'flush'
         self.term = term
         self.tokens = []        # for buf events
+        self.fill = None        # term of the count when the event writes its (single) token that many times
         self.source = None      # for out write_all: term tree of the byte slice
         self.line = term.get("line")
+
+
+def fill_of(t):
+    """`repeat(x).take(n)` / `repeat_n(x, n)` -> (x, n) else None"""
+    t = strip_into_iter(t)
+    if is_call(t, r"Iterator(<.*>)?>?::take$") and len(t[2]) == 2 and is_call(t[2][0], r"^std::iter::repeat$") and len(uncell(t[2][0])[2]) == 1:
+        return uncell(t[2][0])[2][0], t[2][1]
+    if is_call(t, r"^std::iter::repeat_n$") and len(t[2]) == 2:
+        return t[2][0], t[2][1]
+    return None
 
 
 class Sinks:
@@ -512,13 +671,15 @@ class Sinks:
             self.problems.append(("out-parameter", "expected exactly one `&mut dyn Write` parameter, found %d" % len(outs)))
             return
         self.out = outs[0]
-        # ---- buffer: the Vec<u8> local that receives io::Write calls through `&mut local`
+        # ---- buffer: the Vec<u8> local that receives io::Write calls through `&mut local` (directly, or through a `&mut Vec<u8>`
+        # handed on by moves / reborrows, e.g. into the parameter of an expanded helper)
         cands = set()
-        for bb, t in b.calls():
-            if (call_matches(t, WRITE_ALL_RX) or call_matches(t, WRITE_FMT_RX)) and t["args"]:
-                l = self._base_local(t["args"][0])
-                if l is not None and re.match(r"^std::vec::Vec<u8(, .*)?>$", b.local_ty(l)):
-                    cands.add(l)
+        for l in range(b.arg_count + 1, len(b.locals)):
+            if not re.match(r"^std::vec::Vec<u8(, .*)?>$", b.local_ty(l)):
+                continue
+            calls, _ = self._alias_calls(l, "buf", owner=True)
+            if any(call_matches(t, WRITE_ALL_RX) or call_matches(t, WRITE_FMT_RX) for (_, t) in calls):
+                cands.add(l)
         if len(cands) != 1:
             self.problems.append(("buffer-local", "expected exactly one local Vec<u8> written through io::Write, found %d" % len(cands)))
             return
@@ -526,70 +687,116 @@ class Sinks:
         self._scan_sink(self.buf, "buf")
         self._scan_sink(self.out, "out")
 
-    def _base_local(self, o):
-        """the local a `&mut X` argument refers to when it is a direct (re)borrow temporary of a bare local"""
-        if o["k"] not in ("copy", "move") or o["place"]["p"]:
-            return None
-        ds = self.body.defs_of(o["place"]["l"])
-        if len(ds) != 1 or ds[0][1] == "term":
-            return None
-        rv = ds[0][2]
-        if rv["k"] == "ref" and rv.get("mut") and not rv["place"]["p"]:
-            return rv["place"]["l"]
-        return None
+    def _alias_calls(self, l, which, owner):
+        """every call that receives (as its receiver) a `&mut` alias of the sink: `&mut l` when l owns the bytes (owner) or l itself
+        when it is a `&mut` to them, handed on through moves, unsize/reborrow temporaries and `&mut *r` (so also through the
+        parameter of an expanded helper).  -> ([(bb, call term)], [problem])"""
+        b = self.body
+        calls, problems = [], []
+        seen = set()
+        work = []          # reference locals to follow
+
+        def start_ref(info):
+            """info: the `r = &mut place` statement"""
+            if info["place"]["p"]:
+                problems.append((which + "-borrow", "mutable borrow stored into a place"))
+            else:
+                work.append(info["place"]["l"])
+
+        if owner:
+            for (bb, si, kind, info) in local_uses(b, l):
+                if kind == "refmut":
+                    if info["rv"]["place"]["p"]:
+                        problems.append((which + "-borrow", "mutable borrow of a part of the sink"))
+                    else:
+                        start_ref(info)
+        else:
+            work.append(l)
+        while work:
+            r = work.pop()
+            if r in seen:
+                continue
+            seen.add(r)
+            if r != l and len(b.defs_of(r)) != 1:
+                problems.append((which + "-borrow", "a `&mut` of the sink lives in a local with %d definitions" % len(b.defs_of(r))))
+                continue
+            for (bb, si, kind, info) in local_uses(b, r):
+                if kind in ("def", "calldest"):
+                    if r == l:
+                        problems.append(("out-reassigned", "the `out` parameter is assigned"))
+                    continue
+                if kind == "refmut":
+                    if [e["k"] for e in info["rv"]["place"]["p"]] != ["deref"]:
+                        problems.append((which + "-borrow", "mutable borrow of a part of the sink"))
+                    else:
+                        start_ref(info)            # reborrow `&mut *r`
+                elif kind in ("ref", "drop"):
+                    continue                       # shared borrows cannot change the bytes
+                elif kind == "use" and si != "term" and not info["place"]["p"] and (
+                        info["rv"]["k"] == "use" or (info["rv"]["k"] == "cast" and info["rv"]["ck"].startswith("PointerCoercion"))):
+                    work.append(info["place"]["l"])    # moved on (also into the parameter of an expanded helper)
+                elif kind == "arg" and info[0] == 0 and not info[2]:
+                    calls.append((bb, info[1]))
+                else:
+                    problems.append((which + "-borrow", "a `&mut` of the sink is not consumed as the receiver of a call (%s)" % kind))
+        return calls, problems
 
     def _scan_sink(self, l, which):
         b = self.body
+        calls, problems = self._alias_calls(l, which, owner=(which == "buf"))
+        self.problems += problems
+        for (bb, t) in sorted(calls, key=lambda c: c[0]):
+            self._event(bb, t, which)
+        if which == "out":
+            return
         ndef = 0
-        for (bb, si, kind, info) in local_uses(b, l):
-            if kind in ("def", "calldest"):
-                ndef += 1
-                if which == "buf":
+        owners = [l]           # the buffer, and the locals it is moved into (e.g. the by-value parameter of an expanded helper)
+        seen = set()
+        while owners:
+            o = owners.pop()
+            if o in seen:
+                continue
+            seen.add(o)
+            if o != l:
+                if len(b.defs_of(o)) != 1:
+                    self.problems.append(("buffer-moved", "the buffer is moved into a local with %d definitions" % len(b.defs_of(o))))
+                    continue
+                calls, problems = self._alias_calls(o, which, owner=True)
+                self.problems += problems
+                for (bb, t) in sorted(calls, key=lambda c: c[0]):
+                    self._event(bb, t, which)
+            for (bb, si, kind, info) in local_uses(b, o):
+                if kind in ("def", "calldest"):
+                    if o != l:
+                        continue
+                    ndef += 1
                     self.buf_def_bb = bb
                     if not (kind == "calldest" and call_matches(info, r"^std::vec::Vec::<T>::(new|with_capacity)$")):
                         self.problems.append(("buffer-origin", "the buffer is not created by Vec::new()/with_capacity()"))
+                elif kind in ("refmut", "ref", "drop"):
+                    continue
+                elif kind == "use" and si != "term" and info["rv"]["k"] == "use" and info["rv"]["a"]["k"] == "move" and not info["place"]["p"]:
+                    m = info["place"]["l"]
+                    cons = self._ref_consumers(m)
+                    if len(cons) == 1 and cons[0][2] == "arg" and not cons[0][3][2]:
+                        self.buf_moves.append((cons[0][0], cons[0][3][1], cons[0][3][0]))
+                    elif all(c[2] == "drop" for c in cons):
+                        continue
+                    else:
+                        owners.append(m)
+                elif kind == "arg" and not info[2]:
+                    self.buf_moves.append((bb, info[1], info[0]))
                 else:
-                    self.problems.append(("out-reassigned", "the `out` parameter is assigned"))
-                continue
-            if kind == "refmut":
-                proj = info["rv"]["place"]["p"]
-                if (which == "buf" and proj) or (which == "out" and [e["k"] for e in proj] != ["deref"]):
-                    self.problems.append((which + "-borrow", "mutable borrow of a part of the sink"))
-                    continue
-                r = info["place"]["l"]
-                if info["place"]["p"]:
-                    self.problems.append((which + "-borrow", "mutable borrow stored into a place"))
-                    continue
-                cons = self._ref_consumers(r)
-                if len(cons) != 1 or cons[0][2] != "arg" or cons[0][3][0] != 0 or cons[0][3][2]:
-                    self.problems.append((which + "-borrow", "a `&mut` of the sink is not consumed as the receiver of exactly one call"))
-                    continue
-                cbb, _, _, (i, t, _) = cons[0]
-                self._event(cbb, t, which)
-            elif kind == "ref":
-                continue                      # shared borrows cannot change the bytes
-            elif kind == "drop":
-                continue
-            elif kind == "use" and which == "buf" and info["rv"]["k"] == "use" and info["rv"]["a"]["k"] == "move" and not info["place"]["p"]:
-                m = info["place"]["l"]
-                cons = self._ref_consumers(m)
-                if len(cons) == 1 and cons[0][2] == "arg" and not cons[0][3][2]:
-                    self.buf_moves.append((cons[0][0], cons[0][3][1], cons[0][3][0]))
-                elif all(c[2] == "drop" for c in cons):
-                    continue
-                else:
-                    self.problems.append(("buffer-moved", "the buffer is moved somewhere that is not a call argument"))
-            elif kind == "arg" and which == "buf" and not info[2]:
-                self.buf_moves.append((bb, info[1], info[0]))
-            else:
-                self.problems.append((which + "-use", "use of the sink that is not understood (%s)" % kind))
-        if which == "buf" and ndef != 1:
+                    self.problems.append((which + "-use", "use of the sink that is not understood (%s)" % kind))
+        if ndef != 1:
             self.problems.append(("buffer-origin", "the buffer local has %d definitions" % ndef))
 
     def _event(self, bb, t, which):
         if bb in self.events:
             self.problems.append((which + "-event", "two sink operations in one block"))
             return
+        if which == "buf" and call_matches(t, r"^std::vec::Vec::<T, A>::(reserve|reserve_exact|shrink_to_fit|shrink_to)$"):
+            return          # capacity only: the bytes are unchanged
         if call_matches(t, WRITE_ALL_RX) and len(t["args"]) == 2:
             ev = Event(bb, which, "write_all", t)
             src = self.tm.op(t["args"][1])
@@ -606,6 +813,13 @@ class Sinks:
             ev = Event(bb, which, "write_all", t)
             ev.source = self.tm.op(t["args"][1])
             ev.tokens = self._bytes_tokens(ev.source, t)
+        elif which == "buf" and call_matches(t, r"Extend<.*>>::extend$|^std::iter::Extend::extend$") and len(t["args"]) == 2 and fill_of(self.tm.op(t["args"][1])) is not None:
+            # `buf.extend(repeat(x).take(n))`: n copies of one byte, the iterator form of `for _ in 0..n { buf.push(x) }`
+            x, n = fill_of(self.tm.op(t["args"][1]))
+            ev = Event(bb, which, "write_all", t)
+            ev.source = ("agg", "array", "array", (x,))
+            ev.tokens = self._bytes_tokens(ev.source, t)
+            ev.fill = n
         elif which == "buf" and call_matches(t, r"^std::vec::Vec::<T, A>::push$") and len(t["args"]) == 2:
             ev = Event(bb, which, "write_all", t)
             ev.source = ("agg", "array", "array", (self.tm.op(t["args"][1]),))
@@ -760,6 +974,12 @@ class CodeGraph:
             succ = body.succs(bb)
             if not toks:
                 self.edges[("B", bb)] = [(None, ("B", s), None) for s in succ]
+                continue
+            if ev.fill is not None and len(toks) == 1:
+                # zero or more copies of the token
+                star = ("E", bb, 1)
+                self.edges[("B", bb)] = [(toks[0], star, (bb, 0))] + [(None, ("B", s), None) for s in succ]
+                self.edges[star] = [(toks[0], star, (bb, 0))] + [(None, ("B", s), None) for s in succ]
                 continue
             cur = ("B", bb)
             for i, tk in enumerate(toks):
@@ -1032,6 +1252,166 @@ def range_iter(t):
 
 
 # =================================================================================================
+# private helpers of draw are expanded in place
+# =================================================================================================
+def private_fn_spans(src):
+    """(file, first line, last line) of every fn item that is not exported (`fn`, `pub(crate) fn`, .. but not `pub fn`) and is
+    not a trait's provided method: the functions a refactoring may freely create, split or dissolve"""
+    out = []
+    for (f, impl_self, impl_trait, it, in_test) in src.fns:
+        if in_test or impl_trait is not None or (impl_self or "").startswith("trait "):
+            continue
+        vis = (it.get("vis") or "").replace(" ", "")
+        if vis == "pub":
+            continue
+        out.append((f, it["line"], it.get("end_line", it["line"])))
+    return out
+
+
+def is_private_helper(spans, b):
+    return b is not None and b.kind in ("Fn", "AssocFn") and not b.impl_trait and any(f == b.file and lo <= b.line <= hi for (f, lo, hi) in spans)
+
+
+def expanded_body(ctx, path):
+    """`path` with the crate-private helpers that only it calls expanded in place (sa/inline.py).  Exported functions and trait
+    methods (Surface::view, ColorPalette::colors, ..) are the vocabulary the clauses are written in and stay calls."""
+    from .. import inline
+    prog = ctx.prog
+    spans = private_fn_spans(ctx.src)
+    orig = inline.inlinable
+    cache = prog.__dict__.setdefault("_inl_cache", {})
+    saved = cache.pop(path, None)
+
+    def only_private(prog_, callee, into_root):
+        return is_private_helper(spans, callee) and orig(prog_, callee, into_root)
+    inline.inlinable = only_private
+    try:
+        body = inline.inlined(prog, path)
+    finally:
+        inline.inlinable = orig
+        cache.pop(path, None)
+        if saved is not None:
+            cache[path] = saved
+    if body is not prog.body(path):
+        body = thread_returns(body)
+    return body, spans
+
+
+def _variant_after(t, arg_variant):
+    """variant index of the destination of a call whose outcome is fixed by its callee / its argument's variant, else None"""
+    gen = t["fn"].get("generics") or []
+    self_ty = gen[0] if gen else ""
+    if call_matches(t, r"FromResidual.*::from_residual$"):
+        if self_ty.startswith("std::result::Result<"):
+            return 1                                        # Result::from_residual(Err(e)) is Err(From::from(e))
+        if self_ty.startswith("std::option::Option<"):
+            return 0
+        return None
+    if call_matches(t, r"^std::ops::Try::branch$|Try>::branch$") and arg_variant is not None:
+        if self_ty.startswith("std::result::Result<"):
+            return arg_variant                              # Ok(0) -> Continue(0), Err(1) -> Break(1)
+        if self_ty.startswith("std::option::Option<"):
+            return 1 - arg_variant                          # None(0) -> Break(1), Some(1) -> Continue(0)
+    return None
+
+
+def thread_returns(body):
+    """An expanded helper leaves its result in one local on all of its return paths, which merge before the caller looks at the
+    result (`helper(..)?`, `match helper(..)`, `if helper(..)`), so the CFG contains the infeasible combinations "helper failed,
+    caller continues".  Where a block inside an expanded helper fixes the variant / constant of the result and the blocks from
+    there to the caller's switch on it form a straight line (goto, drop, `Try::branch`, plain moves), the edge is redirected to
+    the switch target that variant selects.  Statements are not touched (term trees are flow insensitive); blocks of draw itself
+    keep their numbers.  Returns a new Body (the given one when nothing was threaded)."""
+    import copy
+    from ..mir import Body
+    blocks = body.blocks
+
+    def follow(start_bb, env):
+        """-> switch target selected, walking single-successor blocks from start_bb with env: local -> ('v', variant) | ('c', int)"""
+        bb = start_bb
+        for _ in range(40):
+            blk = blocks[bb]
+            if blk["cleanup"]:
+                return None
+            for st in blk["stmts"]:
+                if st["k"] != "assign":
+                    continue
+                pl, rv = st["place"], st["rv"]
+                if pl["p"]:
+                    env.pop(pl["l"], None)
+                    continue
+                val = None
+                if rv["k"] == "use" and rv["a"]["k"] in ("copy", "move") and not rv["a"]["place"]["p"]:
+                    val = env.get(rv["a"]["place"]["l"])
+                elif rv["k"] == "use" and rv["a"]["k"] == "const" and "int" in rv["a"]["c"]:
+                    val = ("c", int(rv["a"]["c"]["int"]))
+                elif rv["k"] == "discr" and not rv["place"]["p"] and env.get(rv["place"]["l"], ("?",))[0] == "v":
+                    val = ("c", env[rv["place"]["l"]][1])
+                elif rv["k"] == "agg" and rv.get("ak") == "adt" and rv.get("is_enum"):
+                    val = ("v", rv["vi"])
+                elif rv["k"] in ("ref", "rawptr") and (rv.get("mut") or rv["k"] == "rawptr"):
+                    env.pop(rv["place"]["l"], None)
+                if val is None:
+                    env.pop(pl["l"], None)
+                else:
+                    env[pl["l"]] = val
+            t = blk["term"]
+            k = t["k"]
+            if k == "goto":
+                bb = t["t"]
+            elif k == "drop" and t["t"] >= 0:
+                env.pop(t["place"]["l"], None)
+                bb = t["t"]
+            elif k == "call" and t["t"] >= 0 and not t["dest"]["p"]:
+                a0 = t["args"][0] if t["args"] else None
+                av = env.get(a0["place"]["l"]) if a0 is not None and a0["k"] in ("copy", "move") and not a0["place"]["p"] else None
+                v = _variant_after(t, av[1] if av and av[0] == "v" else None)
+                if v is None:
+                    return None
+                env[t["dest"]["l"]] = ("v", v)
+                bb = t["t"]
+            elif k == "switch":
+                d = t["d"]
+                dv = env.get(d["place"]["l"]) if d["k"] in ("copy", "move") and not d["place"]["p"] else None
+                if dv is None or dv[0] != "c":
+                    return None
+                for v, tg in zip(t["vals"], t["targets"]):
+                    if int(v) == dv[1]:
+                        return tg
+                return t["otherwise"]
+            else:
+                return None
+        return None
+
+    redirect = {}
+    for bb, blk in enumerate(blocks):
+        if not blk.get("inl_from") or blk["cleanup"]:
+            continue
+        t = blk["term"]
+        if t["k"] not in ("goto", "call") or t.get("t", -1) < 0:
+            continue
+        # the block must itself fix something: a whole-local enum aggregate / constant, or a call with a fixed outcome
+        fixes = any(st["k"] == "assign" and not st["place"]["p"] and (
+            (st["rv"]["k"] == "agg" and st["rv"].get("is_enum")) or (st["rv"]["k"] == "use" and st["rv"]["a"]["k"] == "const" and "int" in st["rv"]["a"]["c"]))
+            for st in blk["stmts"])
+        if t["k"] == "call":
+            fixes = _variant_after(t, None) is not None and not t["dest"]["p"]
+        if not fixes:
+            continue
+        tg = follow(bb, {})
+        if tg is not None and tg != t["t"]:
+            redirect[bb] = tg
+    if not redirect:
+        return body
+    j = copy.deepcopy(body.j)
+    for bb, tg in redirect.items():
+        j["blocks"][bb]["term"]["t"] = tg
+        j["blocks"][bb]["term"]["threaded_from"] = blocks[bb]["term"]["t"]
+    j["threaded_edges"] = len(redirect)
+    return Body(j, body.prog)
+
+
+# =================================================================================================
 # the check
 # =================================================================================================
 class A:
@@ -1110,13 +1490,20 @@ def run(ctx):
     except Exception as e:
         ctx.anchor("FRAMING", "refs/sixel.json", "reference data unreadable: %s" % e)
         return
-    body = prog.body(DRAW)
-    if body is None:
+    if prog.body(DRAW) is None:
         ctx.anchor("FRAMING", "SixelImageHandler::draw", "MIR body of %s not found" % DRAW)
         return
+    # the structural clauses are decided on draw with its private single-caller helpers expanded in place: block and local
+    # numbers of draw's own code are unchanged, the helpers' blocks are appended
+    body, spans = expanded_body(ctx, DRAW)
     a = A()
     a.refs = refs
     a.body = body
+    a.plain_body = prog.body(DRAW)
+    a.private_spans = spans
+    if body is not a.plain_body:
+        ctx.note("draw is analysed with %d call(s) of private single-caller helpers expanded in place: %s" % (
+            body.j.get("inlined_calls", 0), ", ".join(sorted({blk["inl_from"] for blk in body.blocks if blk.get("inl_from")}))))
     a.tm = Terms(body)
     a.cfg = body.cfg()
     a.sinks = Sinks(body, a.tm)
@@ -1140,6 +1527,18 @@ def run(ctx):
     total(ctx, a)
 
 
+def whole_slice_of(src):
+    """the Vec all of whose bytes the slice expression denotes: v.as_slice(), &*v / deref coercion, &v[..]"""
+    if is_call(src, r"^std::vec::Vec::<T, A>::as_slice$|Deref>::deref$") and len(uncell(src)[2]) == 1:
+        return uncell(src)[2][0]
+    if is_call(src, r"ops::Index(<.*>)?>?::index$") and len(uncell(src)[2]) == 2:
+        r = uncell(src)[2][1]
+        if r[0] == "agg" and r[1] == "adt" and r[2] == "std::ops::RangeFull":
+            return uncell(src)[2][0]
+        return None
+    return src
+
+
 def framing(ctx, a):
     body, tm, cfg, ev = a.body, a.tm, a.cfg, a.sinks.events
     buf = a.sinks.buf
@@ -1152,8 +1551,8 @@ def framing(ctx, a):
         e = ev[bb]
         src = e.source
         kind = "other"
-        if e.kind == "write_all" and is_call(src, r"^std::vec::Vec::<T, A>::as_slice$|Deref>::deref$") and len(src[2]) == 1:
-            x = src[2][0]
+        x = whole_slice_of(src) if e.kind == "write_all" else None
+        if x is not None:
             if x[0] == "cell" and x[1] == a.sinks.buf:
                 kind = "buffer"
                 a.emit_buf.append(bb)
@@ -1225,18 +1624,35 @@ def framing(ctx, a):
             continue
         # residual origin: `?` on the result of a sink event
         t = body.blocks[bb]["term"]
-        okx = False
-        if t["k"] == "call" and t["args"]:
-            r = tm.op(t["args"][0])
-            for x in subterms(r):
-                if x[0] == "call" and x[3] in ev:
-                    okx = True
+        okx = t["k"] == "call" and bool(t["args"]) and io_residual(a, tm.op(t["args"][0]))
         n_exit += 1
         if not okx:
             bad_exit.append(bb)
     ctx.instance("FRAMING", {"failure_exits_after_buffer_creation": n_exit, "not_io": bad_exit})
     for bb in bad_exit:
         ctx.violation("FRAMING", DRAW, "non-io-failure-exit", "a failure exit after the creation of the buffer does not stem from `?` on a sink write", sites=site(a, bb))
+
+
+def io_residual(a, t, seen=frozenset()):
+    """the error value t stems from `?` on a sink write: its term contains the result of a sink event, or it is a Result local
+    with several definitions (the return value of an expanded helper) all of whose definitions that can hold an error do"""
+    subs = subterms(t)
+    if any(x[0] == "call" and x[3] in a.sinks.events for x in subs):
+        return True
+    for x in subs:
+        if x[0] != "var" or x[1] in seen:
+            continue
+        errs = 0
+        for d in a.body.defs_of(x[1]):
+            r = a.tm.rvalue(d, frozenset())
+            if r[0] == "agg" and r[1] == "adt" and r[2].endswith("::Ok"):
+                continue
+            if not io_residual(a, r, seen | {x[1]}):
+                return False
+            errs += 1
+        if errs:
+            return True
+    return False
 
 
 def one_role(ctx, a, rule, role, what):
@@ -1343,6 +1759,16 @@ def iteration_language(ctx, a, lp, g, rule, what):
     return viol, roles
 
 
+def channel_ty(a, x):
+    """element type of the to_rgb() array a channel is read from ("u8" expected: only then is `f32::from` the same as `as f32`)"""
+    c = uncell(x[1])
+    bb = c[3]
+    if isinstance(bb, int) and a.body.blocks[bb]["term"]["k"] == "call":
+        m = re.fullmatch(r"\[(\w+); \d+\]", a.body.local_ty(a.body.blocks[bb]["term"]["dest"]["l"]))
+        return m.group(1) if m else "?"
+    return "?"
+
+
 def palette(ctx, a, quant):
     body, tm = a.body, a.tm
     col = a.refs["controls"]["color"]
@@ -1387,12 +1813,15 @@ def palette(ctx, a, quant):
         item = None
         if t[0] == "cast" and t[1] == "FloatToInt" and t[2] == "u8" and is_call(t[3], r"^std::f32::<impl f32>::round$|^std::f64::<impl f64>::round$"):
             d = t[3][2][0]
-            if d[0] == "bin" and d[1] == "Div" and d[3][0] == "float" and d[2][0] == "cast" and d[2][1] == "IntToFloat":
-                x = d[2][3]
+            if d[0] == "bin" and d[1] == "Div" and d[3][0] == "float":
+                # `c as f32` or the lossless `f32::from(c)` (From::from is transparent in term trees)
+                x = d[2][3] if (d[2][0] == "cast" and d[2][1] == "IntToFloat") else d[2]
                 div = d[3][1]
-                if x[0] == "idx" and is_call(x[1], r"^rasterize::Color::to_rgb$") and len(x[1][2]) == 1:
+                if x[0] == "idxv" and x[2][0] == "int":
+                    x = ("idx", x[1], x[2][1])            # `rgb[0]` with a constant index is the pattern element `[r, ..]`
+                if x[0] == "idx" and is_call(x[1], r"^rasterize::Color::to_rgb$") and len(uncell(x[1])[2]) == 1 and re.fullmatch(r"\[u8; \d+\]|u8", channel_ty(a, x)):
                     chan = x[2]
-                    item = item_of(x[1][2][0])
+                    item = item_of(uncell(x[1])[2][0])
                     shape = "round(channel/d)"
         okscale = shape is not None and abs(div - sc["divisor"]) <= sc["tolerance"] and round(sc["channel_max"] / div) <= col["component_max"]
         okchan = chan == k
@@ -1479,6 +1908,104 @@ def dominating_true_edge(a, bb, pred):
     return out
 
 
+FOLD_RX = r"(^|::)Iterator(<.*>)?>?::fold$|^std::iter::Iterator::fold$|Iterator for .*>::fold$|as std::iter::Iterator>::fold$"
+SYM_I = ("sym", "slot index")          # index of the current element of the sample array in an iterator chain
+SYM_ACC = ("sym", "accumulator")
+
+
+def strip_int_casts(t):
+    while t[0] == "cast" and t[1] == "IntToInt":
+        t = t[3]
+    return t
+
+
+def sample_chain(prog, a, t, S, bits):
+    """iterator expression over the sample array S -> dict(item: term of the element handed on (SYM_I = its slot index),
+    guards: [truth of a filter predicate, ..], n: number of slots) or None when an adaptor is not understood.
+    Understood: S.iter() [.copied()/.cloned()] | 0..bits, then .enumerate() (only directly, so that the counter is the slot
+    index), .filter(p), .map(f) with a branch-free f."""
+    t = strip_into_iter(t)
+    if is_call(t, r"^core::slice::<impl \[T\]>::iter$") and len(uncell(t)[2]) == 1:
+        arr = uncell(t)[2][0]
+        if arr[0] == "cell" and arr[1] == S and arr[2][0] == "repeat":
+            return {"item": ("idxv", arr, SYM_I), "guards": [], "n": arr[2][2], "counted": False, "closures": []}
+        return None
+    r = range_iter(t)
+    if r is not None:
+        if r == (("int", 0), ("int", bits)):
+            return {"item": SYM_I, "guards": [], "n": bits, "counted": False, "closures": []}
+        return None
+    if t[0] != "call" or not t[2]:
+        return None
+    name = t[1]
+    if re.search(r"Iterator(<.*>)?>?::(copied|cloned)$", name) and len(t[2]) == 1:
+        return sample_chain(prog, a, t[2][0], S, bits)
+    if re.search(r"Iterator(<.*>)?>?::enumerate$", name) and len(t[2]) == 1:
+        inner = sample_chain(prog, a, t[2][0], S, bits)
+        if inner is None or inner["guards"] or inner["counted"]:
+            return None
+        return dict(inner, item=("agg", "tuple", "tuple", (SYM_I, inner["item"])), counted=True)
+    if re.search(r"Iterator(<.*>)?>?::filter$", name) and len(t[2]) == 2:
+        inner = sample_chain(prog, a, t[2][0], S, bits)
+        if inner is None:
+            return None
+        truth = closure_truth(prog, t[2][1], [inner["item"]])
+        if truth is None:
+            return None
+        cb = closure_of(prog, t[2][1])
+        return dict(inner, guards=inner["guards"] + [truth], closures=inner["closures"] + [(cb.path, ClosureTerms(cb, uncell(t[2][1]), [inner["item"]]))])
+    if re.search(r"Iterator(<.*>)?>?::map$", name) and len(t[2]) == 2:
+        inner = sample_chain(prog, a, t[2][0], S, bits)
+        if inner is None:
+            return None
+        paths = closure_paths(prog, t[2][1], [inner["item"]])
+        if paths is None or len(paths) != 1 or paths[0][0]:
+            return None
+        return dict(inner, item=paths[0][1], closures=inner["closures"] + [(closure_of(prog, t[2][1]).path, paths[0][2])])
+    return None
+
+
+def fold_bits(prog, a, fold, key, S, bits):
+    """`<chain over the sample array>.fold(0, |code, item| code | (1 << i))` with exactly the slots whose sample equals `key`
+    passing the chain -> (ok, detail, {closure: path of the fold closure, n: slots})"""
+    chain, init, g = fold[2]
+    info = {"closure": None, "n": None, "chain_closures": []}
+    ch = sample_chain(prog, a, chain, S, bits)
+    if ch is None:
+        return False, "the iterator chain %s is not understood" % a.tm.show(chain)[:160], info
+    info["n"] = ch["n"]
+    info["chain_closures"] = ch["closures"]
+    if init != ("int", 0):
+        return False, "the fold starts from %s, not 0" % a.tm.show(init), info
+    paths = closure_paths(prog, g, [SYM_ACC, ch["item"]])
+    cb = closure_of(prog, g)
+    if paths is None or len(paths) != 1 or paths[0][0]:
+        return False, "the fold closure is not a single expression", info
+    info["closure"] = cb.path
+    info["terms"] = paths[0][2]
+    v = paths[0][1]
+    sh = None
+    if v[0] == "bin" and v[1] == "BitOr":
+        x, y = v[2], v[3]
+        if y == SYM_ACC:
+            x, y = y, x
+        if x == SYM_ACC and y[0] == "bin" and y[1] == "Shl" and y[2] == ("int", 1):
+            sh = strip_int_casts(y[3])
+    if sh != SYM_I:
+        return False, "the fold closure returns %s, not accumulator | (1 << slot index)" % paths[0][2].show(v)[:160], info
+    # exactly the slots holding the colour pass: one filter whose predicate is `sample == colour`
+    sample = lambda u: u[0] == "idxv" and u[1][0] == "cell" and u[1][1] == S and u[2] == SYM_I
+    if len(ch["guards"]) != 1 or len(ch["guards"][0]) != 1 or len(ch["guards"][0][0]) != 1:
+        return False, "the chain does not filter the slots by exactly one test `sample == colour`", info
+    d, pol = ch["guards"][0][0][0]
+    e = equality_test(d)
+    if e is None or e[0] != pol or not ((sample(e[1]) and e[2] == key) or (sample(e[2]) and e[1] == key)):
+        return False, "the filter keeps the slots with %s%s, not those whose sample equals the colour" % ("" if pol else "not ", a.tm.show(d)[:160]), info
+    if ch["n"] != bits:
+        return False, "the chain runs over %s slots, a sixel has %d" % (ch["n"], bits), info
+    return True, None, info
+
+
 def band(ctx, a, quant):
     body, tm, cfg = a.body, a.tm, a.cfg
     if quant is None or quant.get("img") is None:
@@ -1517,6 +2044,9 @@ def band(ctx, a, quant):
             gc = uncell(g[1][1])
             if gc[2][0] == qimg and is_call(gc[2][1], r"^terminal::Position::new$") and len(uncell(gc[2][1])[2]) == 2:
                 return uncell(gc[2][1])[2]
+            pos_ = uncell(gc[2][1])
+            if gc[2][0] == qimg and pos_[0] == "agg" and pos_[1] == "adt" and pos_[2] == "terminal::Position" and len(pos_[3]) == 2:
+                return pos_[3]              # `Position { row, col }` (fields in declaration order) is `Position::new(row, col)`
         return None
 
     stores = []          # (bb, array local, slot, value): slot = ('enum', next bb) | ('range', next bb)
@@ -1596,7 +2126,8 @@ def band(ctx, a, quant):
         return
     pbb, pt, MAP, key, val = pushes[0]
     a.MAP, a.push_bb = MAP, pbb
-    CODE = None
+    CODE = None      # loop form: the local the bits are OR-ed into
+    FOLD = None      # iterator form: the `<chain>.fold(0, |code, ..| code | 1 << i)` call
     okpush = False
     if val[0] == "agg" and val[1] == "tuple" and len(val[3]) == 2:
         c0, c1 = val[3]
@@ -1606,7 +2137,9 @@ def band(ctx, a, quant):
                 x, y = y, x
             if x[0] == "var" and y == ("int", dt["offset"]):
                 CODE = x[1]
-        okpush = CODE is not None and col_item(c0)
+            elif is_call(x, FOLD_RX) and len(uncell(x)[2]) == 3 and y == ("int", dt["offset"]):
+                FOLD = uncell(x)
+        okpush = (CODE is not None or FOLD is not None) and col_item(c0)
     ctx.instance("BAND", {"pushed": tm.show(val)[:160], "is_column_and_code_plus_63": okpush})
     if not okpush:
         ctx.violation("BAND", DRAW, "code-offset", "the run lists receive %s, expected (column, sixel_code + %d): sixel data characters are the pixel bits plus %d ('?')" % (
@@ -1632,8 +2165,17 @@ def band(ctx, a, quant):
                 if not (is_call(srcx, r"^std::iter::Iterator::(copied|cloned)$") and is_call(srcx[2][0], r"^core::slice::<impl \[T\]>::iter$")
                         and uncell(srcx[2][0])[2][0][0] == "cell" and uncell(srcx[2][0])[2][0][1] == S):
                     okuniq, why = False, "the colour set is extended from %s" % tm.show(srcx)[:120]
-            elif call_matches(cons[1], r"^std::collections::HashSet::<T, S, A>::insert$"):
-                okuniq, why = False, "insert() into the colour set is not understood"
+            elif call_matches(cons[1], r"^std::collections::HashSet::<T, S, A>::insert$") and len(cons[1]["args"]) == 2:
+                # `for c in sixel.iter() { set.insert(*c); }`: the loop form of `set.extend(sixel.iter().copied())`
+                iv = item_of(tm.op(cons[1]["args"][1]))
+                srcx = uncell(iv[1]) if iv is not None else None
+                while srcx is not None and is_call(srcx, r"^std::iter::Iterator::(copied|cloned)$"):
+                    srcx = uncell(srcx[2][0])
+                lps = [l for l in a.loops if iv is not None and l.head == iv[0]]
+                if not (iv is not None and iv[2] == [] and is_call(srcx, r"^core::slice::<impl \[T\]>::iter$") and uncell(srcx)[2][0][0] == "cell" and uncell(srcx)[2][0][1] == S
+                        and len(lps) == 1 and in_loop(cfg, LC, lps[0].head) and in_loop(cfg, lps[0], cons[0])
+                        and cfg.must_pass([cons[0]], exits=[lps[0].head], start=lps[0].some)[0]):
+                    okuniq, why = False, "insert() into the colour set is not an insertion of every sample of the column"
             else:
                 okuniq, why = False, "the colour set is mutated by %s" % callee_name(cons[1])
     ctx.instance("BAND", {"entry_key": tm.show(key)[:160], "iterates_set_of_the_column_samples": okuniq})
@@ -1642,6 +2184,7 @@ def band(ctx, a, quant):
             tm.show(key)[:160], why or "loop nesting"), sites=site(a, pbb))
     # ---- (4) bit provenance ----------------------------------------------------------------------
     a.CODE = CODE
+    a.FOLD = None
     if CODE is not None and LU is not None:
         defs = body.defs_of(CODE)
         zero = [d for d in defs if d[1] != "term" and d[2]["k"] == "use" and tm.op(d[2]["a"]) == ("int", 0)]
@@ -1677,13 +2220,10 @@ def band(ctx, a, quant):
             if L2 is not None:
                 # the OR is executed exactly when sample == colour
                 def is_eq(dd):
-                    dd = uncell(dd)
-                    if dd[0] == "call" and re.search(r"PartialEq(<.*>)?>?::eq$|PartialEq<&B> for &A>::eq$", dd[1]) and len(dd[2]) == 2:
-                        p, q = dd[2]
-                    elif dd[0] == "bin" and dd[1] == "Eq":
-                        p, q = dd[2], dd[3]
-                    else:
+                    e = equality_test(dd)
+                    if e is None:
                         return False
+                    p, q = e[1], e[2]
                     for (u, v) in ((p, q), (q, p)):
                         if v != key:
                             continue
@@ -1693,18 +2233,19 @@ def band(ctx, a, quant):
                         if form == "range" and u[0] == "idxv" and u[1][0] == "cell" and u[1][1] == S and u[2] == sh:
                             return True
                     return False
-                doms = dominating_true_edge(a, d[0], is_eq)
-                ok_guard = any(truth for (_, truth) in doms)
+                # an edge stands for `sample == colour` when it is the true edge of `==` or the false edge of `!=`
+                doms = [(x, True) for (x, truth) in dominating_true_edge(a, d[0], is_eq) if truth == equality_test(tm.op(body.blocks[x]["term"]["d"]))[0]]
+                ok_guard = bool(doms)
                 # conversely: from the true edge the OR is always reached before the next sample
                 okbits = ok_guard and in_loop(cfg, L2, d[0])
                 if okbits:
-                    for (x, truth) in doms:
-                        if truth:
-                            tt = body.blocks[x]["term"]
-                            ys = [tg for v, tg in zip(tt["vals"], tt["targets"]) if v != "0"] + ([tt["otherwise"]] if tt["vals"] == ["0"] else [])
-                            for y in ys:
-                                okp, _ = cfg.must_pass([d[0]], exits=[L2.head], start=y)
-                                okbits = okbits and okp
+                    for (x, _) in doms:
+                        tt = body.blocks[x]["term"]
+                        means_eq = equality_test(tm.op(tt["d"]))[0]
+                        ys = [tg for v, tg in zip(tt["vals"], tt["targets"]) if (v != "0") == means_eq] + ([tt["otherwise"]] if (tt["vals"] == ["0"]) == means_eq else [])
+                        for y in ys:
+                            okp, _ = cfg.must_pass([d[0]], exits=[L2.head], start=y)
+                            okbits = okbits and okp
                 if not ok_guard:
                     detail = "the OR is not guarded by `sample == colour`"
             else:
@@ -1721,6 +2262,18 @@ def band(ctx, a, quant):
         ctx.instance("BAND", {"code_reset_per_colour_and_pushed_once": okreset})
         if not okreset:
             ctx.violation("BAND", DRAW, "code-reset", "the sixel code is not reset to 0 for every colour of every column before the sample scan, or is pushed inside the scan", sites=site(a, pbb))
+    elif FOLD is not None and LU is not None:
+        okbits, detail, info = fold_bits(ctx.prog, a, FOLD, key, S, bits)
+        a.FOLD = dict(info, term=FOLD, ok=okbits)
+        ctx.instance("BAND", {"code_definitions": [tm.show(FOLD)[:200]], "bit_i_is_sample_i": okbits})
+        if not okbits:
+            ctx.violation("BAND", DRAW, "bit-provenance", "the sixel code must be OR of (1 << i) over the sample slots i holding the colour (bit 0 = top row): %s" % detail, sites=site(a, FOLD[3]))
+        # a fold starts from its initial value every time: evaluated once per colour, before the push
+        fb = FOLD[3]
+        okreset = in_loop(cfg, LU, fb) and cfg.dominates(fb, pbb) and pbb not in cfg.reachable_from(body.succs(pbb)[0], removed={fb})
+        ctx.instance("BAND", {"code_reset_per_colour_and_pushed_once": okreset})
+        if not okreset:
+            ctx.violation("BAND", DRAW, "code-reset", "the sixel code is not computed afresh for every colour of every column before it is pushed", sites=site(a, pbb))
     else:
         ctx.instance("BAND", {"code_definitions": None})
         ctx.instance("BAND", {"code_reset_per_colour_and_pushed_once": None})
@@ -1882,6 +2435,9 @@ def rle(ctx, a):
             bb = occ[0]
             inner = [l for l in a.loops if in_loop(cfg, LR, l.head) and in_loop(cfg, l, bb)]
             good = False
+            fill = a.sinks.events[bb].fill if bb in a.sinks.events else None
+            if fill is not None:
+                good = bool(want_end(fill)) and not inner       # `extend(repeat(x).take(n))` is the loop
             for l in inner:
                 r = range_iter(l.iter)
                 if r is not None and r[0] == ("int", 0) and want_end(r[1]):
@@ -1931,8 +2487,10 @@ def rle(ctx, a):
             placed = in_loop(cfg, LM, z) and not in_loop(cfg, LR, z) and cfg.dominates(z, LR.head)
             okp, wit = cfg.must_pass([u[0]], exits=[LR.head], start=LR.some)
             once = u[0] not in cfg.reachable_from(body.succs(u[0])[0], removed={LR.head})
-            # nothing is written between the update and the next run
-            quiet = not any(bb in a.sinks.events for bb in cfg.reachable_from(u[0], removed={LR.head}) if bb != u[0])
+            # offset is not read again between the update and the next run (what is written in between does not matter)
+            after_update = cfg.reachable_from(u[0], removed={LR.head})
+            quiet = not any(kind not in ("def", "calldest", "drop") and ((bb == u[0] and (si == "term" or (u[1] != "term" and si > u[1]))) or (bb != u[0] and bb in after_update))
+                            for (bb, si, kind, info) in local_uses(body, OFFSET))
             ok7 = shape and placed and okp and once and quiet
             if not shape:
                 detail = "offset is updated to %s, expected column + repeats" % tm.show(ut)[:120]
@@ -1940,6 +2498,8 @@ def rle(ctx, a):
                 detail = "offset is not reset to 0 before the runs of every colour"
             elif not okp:
                 detail = "a run iteration can end without updating offset (blocks %s)" % wit
+            elif not quiet:
+                detail = "offset is read again after it was updated for the next run"
     ctx.instance("RLE", {"offset": body.varnames.get(OFFSET) if OFFSET is not None else None, "reset_per_colour_and_updated_to_column_plus_repeats": ok7})
     if not ok7:
         ctx.violation("RLE", DRAW, "offset-update", "offset must be 0 at the start of a colour's run list and column + repeats after every run: %s" % detail, sites=site(a, LR.head))
@@ -1995,6 +2555,67 @@ def rle(ctx, a):
                 detail = "the increment is not guarded by `next column == column + repeats` and `next code == code`"
             elif not okn:
                 detail = "the counted element is not consumed from the iterator"
+        nextifs = [(bb, t) for bb, t in body.calls() if call_matches(t, r"^std::iter::Peekable::<I>::next_if$") and len(t["args"]) == 2 and tm.op(t["args"][0])[:2] == ("cell", ITER)]
+        if len(one) == 1 and len(inc) == 1 and not peeks and not nexts and len(nextifs) == 1:
+            # `while codes.next_if(|(c, k)| *c == column + repeats && k == code).is_some() { repeats += 1 }`: next_if consumes the
+            # peeked element exactly when the predicate holds
+            nb, nt = nextifs[0]
+            d = inc[0]
+            it_ = tm.rvalue(d, frozenset())
+            shape = is_add(it_, lambda t: t == ("var", REPEATS), lambda t: t == ("int", 1))
+            placed = in_loop(cfg, LR, one[0][0]) and cfg.dominates(one[0][0], nb) and nb in cfg.reachable_from(d[0]) and one[0][0] not in cfg.reachable_from(nb, removed={LR.head}) \
+                and in_loop(cfg, LR, nb)
+            ELEM = ("sym", "peeked element")
+            clo = uncell(tm.op(nt["args"][1]))
+            truth = closure_truth(ctx.prog, clo, [ELEM])
+            if truth is not None:
+                a.NEXTIF = {"closure": closure_of(ctx.prog, clo).path, "terms": ClosureTerms(closure_of(ctx.prog, clo), clo, [ELEM])}
+            okpred = False
+            if truth is not None and len(truth) == 1:
+                ncol = ncode = nother = 0
+                for (dd, pol) in truth[0]:
+                    e = equality_test(dd)
+                    hit = None
+                    if e is not None and e[0] == pol:
+                        for (u, v) in ((e[1], e[2]), (e[2], e[1])):
+                            if u == ("field", ELEM, "0") and is_add(v, column, lambda t: t == ("var", REPEATS)):
+                                hit = "col"
+                            elif u == ("field", ELEM, "1") and code(v):
+                                hit = "code"
+                    ncol += hit == "col"
+                    ncode += hit == "code"
+                    nother += hit is None
+                okpred = ncol >= 1 and ncode >= 1 and nother == 0
+
+            def taken(dd):
+                """discriminant that tells whether next_if returned Some -> truth value standing for Some, else None"""
+                dd = uncell(dd)
+                if dd[0] == "discr" and uncell(dd[1])[0] == "call" and uncell(dd[1])[3] == nb:
+                    return True
+                if dd[0] == "call" and len(dd[2]) == 1 and uncell(dd[2][0])[0] == "call" and uncell(dd[2][0])[3] == nb:
+                    if re.search(r"Option::<T>::is_some$", dd[1]):
+                        return True
+                    if re.search(r"Option::<T>::is_none$", dd[1]):
+                        return False
+                return None
+            g = [x for (x, truth_) in dominating_true_edge(a, d[0], lambda dd: taken(dd) is not None) if truth_ == taken(tm.op(body.blocks[x]["term"]["d"]))]
+            # conversely every consumed element is counted before the next test
+            counted = bool(g)
+            for x in g:
+                tt = body.blocks[x]["term"]
+                some = taken(tm.op(tt["d"]))
+                ys = [tg for v, tg in zip(tt["vals"], tt["targets"]) if (v != "0") == some] + ([tt["otherwise"]] if (tt["vals"] == ["0"]) == some else [])
+                for y in ys:
+                    counted = counted and cfg.must_pass([d[0]], exits=[nb, LR.head], start=y)[0]
+            ok8 = bool(shape and placed and okpred and g and counted)
+            if not shape:
+                detail = "the counter is changed to %s" % tm.show(it_)[:100]
+            elif truth is None:
+                detail = "the predicate given to next_if is not understood"
+            elif not okpred:
+                detail = "the next_if predicate is not `next column == column + repeats` and `next code == code`"
+            elif not (g and counted):
+                detail = "the increment is not executed exactly when next_if returned an element"
     a.rle_ok = ok7 and ok8
     ctx.instance("RLE", {"repeats_counts_peeked_successors_with_same_code": ok8})
     if not ok8:
@@ -2076,28 +2697,82 @@ def total(ctx, a):
     from .. import oblrules, obligations
     from ..flow import resolve_place
     body, tm, cfg, prog = a.body, a.tm, a.cfg, ctx.prog
+    plain = a.plain_body          # draw as written (the program's own Body object): obligations are collected per written body
     dt = a.refs["data"]
-    obs = [o for o in obligations.collect(body, lossy=False, unsafe=True) if not o.exp]
-    keys = oblrules.site_keys(obs)
     lemmas = {}
-
-    def operands(o):
-        if o.term is None:
-            return []
-        if o.term["k"] == "assert":
-            m = o.term["msg"]
-            return [tm.op(m[k]) for k in ("a", "b") if isinstance(m.get(k), dict)]
-        if o.term["k"] == "call":
-            return [tm.op(x) for x in o.term["args"]]
-        return []
-
     LB, LC, LR = getattr(a, "LB", None), getattr(a, "LC", None), getattr(a, "LR", None)
     CODE, OFFSET, REPEATS = getattr(a, "CODE", None), getattr(a, "OFFSET", None), getattr(a, "REPEATS", None)
+    FOLD, NEXTIF = getattr(a, "FOLD", None), getattr(a, "NEXTIF", None)
+
+    # Obligations are collected per written body (that is how sa/oblrules.py keys them); the lemmas look at their operands in
+    # the body the structural clauses were decided on:
+    #   draw itself          -> the same terminator (blocks of draw keep their numbers in the expanded body)
+    #   a private helper     -> its copy in every expansion of the helper into draw (a lemma must hold for every copy)
+    #   an understood closure (fold over the sample array, next_if predicate) -> the closure's own term trees, in which
+    #                           captured variables read as draw's terms and parameters as the chain's element
+    closure_tms = {}
+    for c_ in (FOLD, NEXTIF):
+        if c_ and c_.get("closure") and c_.get("terms") is not None:
+            closure_tms[c_["closure"]] = c_["terms"]
+        for (cp_, ctm_) in (c_ or {}).get("chain_closures", []):
+            closure_tms[cp_] = ctm_
+    expansions = {}
+    for blk in body.blocks:
+        if blk["term"].get("inl_call") and not blk["cleanup"]:
+            expansions.setdefault(blk["term"]["inl_call"], []).append(blk["term"]["t"])
+
+    def copies_for(b, o):
+        """-> [(terminator, term trees, body)] or [] when the obligation cannot be looked at"""
+        if o.term is None:
+            return []
+        if b.path == DRAW:
+            return [(o.term, tm, body)]
+        if b.path in closure_tms:
+            return [(o.term, closure_tms[b.path], closure_tms[b.path].b)]
+        out = []
+        for bo in expansions.get(b.path, []):
+            t_ = body.blocks[bo + o.bb]["term"] if bo + o.bb < len(body.blocks) else None
+            if t_ is None or t_["k"] != o.term["k"] or body.blocks[bo + o.bb].get("inl_from") != b.path:
+                return []
+            out.append((t_, tm, body))
+        return out
+
+    def operands_of(t_, tmx):
+        if t_["k"] == "assert":
+            m = t_["msg"]
+            return [tmx.op(m[k]) for k in ("a", "b", "index", "len") if isinstance(m.get(k), dict)]
+        if t_["k"] == "call":
+            return [tmx.op(x) for x in t_["args"]]
+        return []
+
+    class Site:
+        pass
+    sites = []
+    for b_ in [plain] + [prog.body(p_) for p_ in sorted(set(expansions) | set(closure_tms)) if prog.body(p_) is not None]:
+        obs_ = [o for o in obligations.collect(b_, lossy=False, unsafe=True) if not o.exp]
+        keys_ = oblrules.site_keys(obs_)
+        for o in obs_:
+            cps = copies_for(b_, o)
+            if not cps:
+                continue
+            s_ = Site()
+            s_.path, s_.key, s_.o, s_.copies = b_.path, keys_[id(o)], o, cps
+            s_.ops = [operands_of(t_, tmx) for (t_, tmx, _) in cps]
+            sites.append(s_)
+
+    def lemma(s_, name, why):
+        lemmas[(s_.path, s_.key)] = (name, why)
+
+    def where(s_):
+        return {} if s_.path == DRAW else {"in": s_.path, "copies": len(s_.copies)}
 
     def enum_index(t):
-        """enumerate index over a slice of a fixed-size array -> array length, else None"""
+        """enumerate index over a slice of a fixed-size array / value of a `0..n` loop / slot index of an understood iterator
+        chain -> number of slots, else None"""
         while t[0] == "cast" and t[1] == "IntToInt":
             t = t[3]
+        if t == SYM_I:
+            return FOLD["n"] if FOLD else None       # slot index of the chain the fold runs over
         it = item_of(t)
         if it is not None and it[2] == [] and range_iter(it[1]) is not None:
             lo, hi = range_iter(it[1])
@@ -2115,79 +2790,100 @@ def total(ctx, a):
         return None
 
     # ---- ENUM-INDEX: 1 << i with i the enumerate index over a [T; N] array, N <= bit width ---------------------------
-    ctx.rule("ENUM-INDEX", "shift amounts are enumerate indices over a fixed-size array shorter than the bit width of the shifted type", floor=1)
-    for o in obs:
-        if o.kind == "OVF" and o.sub == "Shl":
-            ops = operands(o)
-            n = enum_index(ops[1]) if len(ops) == 2 else None
-            dest_bits = None
-            blk = body.blocks[o.term["t"]]
-            for st in blk["stmts"]:
-                if st["k"] == "assign" and st["rv"]["k"] == "bin" and st["rv"]["op"] == "Shl":
-                    m = re.fullmatch(r"[iu](\d+)", body.local_ty(st["place"]["l"]))
-                    dest_bits = int(m.group(1)) if m else 64
-            good = n is not None and dest_bits is not None and n <= dest_bits
-            ctx.instance("ENUM-INDEX", {"shift_amount": tm.show(ops[1])[:120] if len(ops) == 2 else None, "array_length": n, "bit_width": dest_bits, "ok": good})
+    ctx.rule("ENUM-INDEX", "shift amounts (array indices inside iterator closures) are enumerate / slot indices over a fixed-size array shorter than the bit width of the shifted type (not longer than the indexed array)", floor=1)
+    for s_ in sites:
+        if s_.o.kind == "OVF" and s_.o.sub == "Shl":
+            ns, widths = [], []
+            for (t_, tmx, bx), ops in zip(s_.copies, s_.ops):
+                ns.append(enum_index(ops[1]) if len(ops) == 2 else None)
+                dest_bits = None
+                for st in bx.blocks[t_["t"]]["stmts"]:
+                    if st["k"] == "assign" and st["rv"]["k"] == "bin" and st["rv"]["op"] == "Shl":
+                        m = re.fullmatch(r"[iu](\d+)", bx.local_ty(st["place"]["l"]))
+                        dest_bits = int(m.group(1)) if m else 64
+                widths.append(dest_bits)
+            good = all(n is not None and w is not None and n <= w for n, w in zip(ns, widths))
+            ops = s_.ops[0]
+            ctx.instance("ENUM-INDEX", dict({"shift_amount": s_.copies[0][1].show(ops[1])[:120] if len(ops) == 2 else None, "array_length": ns[0], "bit_width": widths[0], "ok": good}, **where(s_)))
             if good:
-                lemmas[(DRAW, keys[id(o)])] = ("ENUM-INDEX", "the shift amount is the enumerate index over a %d-element array, < %d" % (n, dest_bits))
+                lemma(s_, "ENUM-INDEX", "the shift amount is the enumerate index over a %d-element array, < %d" % (ns[0], widths[0]))
+        elif s_.o.kind == "BOUNDS" and s_.o.sub == "Index" and s_.path in closure_tms:
+            # `arr[i]` inside the closure of a chain over the slots 0..n: i < n <= len
+            good = all(len(ops) == 2 and enum_index(ops[0]) is not None and ops[1][0] == "int" and enum_index(ops[0]) <= ops[1][1] for ops in s_.ops)
+            ops = s_.ops[0]
+            ctx.instance("ENUM-INDEX", dict({"index": s_.copies[0][1].show(ops[0])[:120] if ops else None, "len": s_.copies[0][1].show(ops[1])[:40] if len(ops) == 2 else None, "ok": good}, **where(s_)))
+            if good:
+                lemma(s_, "ENUM-INDEX", "the index is the slot index of an iterator chain over %d slots, the array has %d elements" % (enum_index(ops[0]), ops[1][1]))
     # ---- REM-LE: x - x % c with x a shape accessor of the shared `&Image` parameter ------------------------------------
     ctx.rule("REM-LE", "x - x % c cannot underflow when both x are the same accessor (height/width) of the `&Image` parameter", floor=0)
     imgs = img_args(body)
-    for o in obs:
-        if o.kind == "OVF" and o.sub == "Sub" and o.term["k"] == "assert":
-            ops = operands(o)
-            if len(ops) == 2 and ops[1][0] == "bin" and ops[1][1] == "Rem" and is_call(ops[0], r"^surface::Surface::(height|width)$"):
-                good = strip_bb(ops[1][2]) == strip_bb(ops[0]) and len(imgs) == 1 and uncell(ops[0])[2] == (("arg", imgs[0]),)
-                ctx.instance("REM-LE", {"minuend": tm.show(ops[0]), "subtrahend": tm.show(ops[1]), "ok": good})
+    for s_ in sites:
+        if s_.o.kind == "OVF" and s_.o.sub == "Sub" and s_.o.term["k"] == "assert":
+            cand = [ops for ops in s_.ops if len(ops) == 2 and ops[1][0] == "bin" and ops[1][1] == "Rem" and is_call(ops[0], r"^surface::Surface::(height|width)$")]
+            if len(cand) == len(s_.ops):
+                good = all(strip_bb(ops[1][2]) == strip_bb(ops[0]) and len(imgs) == 1 and uncell(ops[0])[2] == (("arg", imgs[0]),) for ops in cand)
+                ops = cand[0]
+                ctx.instance("REM-LE", dict({"minuend": tm.show(ops[0]), "subtrahend": tm.show(ops[1]), "ok": good}, **where(s_)))
                 if good:
-                    lemmas[(DRAW, keys[id(o)])] = ("REM-LE", "x %% c <= x for the same x = %s (the image is borrowed shared for the whole call)" % tm.show(ops[0]))
+                    lemma(s_, "REM-LE", "x %% c <= x for the same x = %s (the image is borrowed shared for the whole call)" % tm.show(ops[0]))
                     ctx.trust("REM-LE", "Surface::height/width of an `&Image` are pure accessors of its immutable shape")
     # ---- BITS6: code | (1 << i), i < 6  =>  code <= 63, code + 63 <= 126 ---------------------------------------------
     ctx.rule("BITS6", "the sixel code is 0 OR-ed with 1 << i for slot indices i < 6, so code + 63 <= 126 fits u8", floor=1)
-    for o in obs:
-        if o.kind == "OVF" and o.sub == "Add":
-            ops = operands(o)
-            if len(ops) == 2 and CODE is not None and ("var", CODE) in ops and ("int", dt["offset"]) in ops:
-                defs = body.defs_of(CODE)
-                okd = True
-                for d in defs:
-                    rv = tm.rvalue(d, frozenset()) if d[1] != "term" else ("?", "call")
-                    if rv == ("int", 0):
+    top = (1 << dt["bits"]) - 1 + dt["offset"]
+
+    def bits6(ops):
+        """-> (applies, holds, what)"""
+        if len(ops) != 2 or ("int", dt["offset"]) not in ops:
+            return False, False, None
+        if FOLD and FOLD["term"] in ops:
+            # iterator form: BAND has checked that the fold is 0 OR-ed with 1 << i for the slots i < n of the chain
+            cb_ = prog.body(FOLD["closure"]) if FOLD.get("closure") else None
+            return True, bool(FOLD["ok"]) and FOLD["n"] == dt["bits"] and top <= 255 and cb_ is not None and cb_.local_ty(0) == "u8", "fold over the sample slots"
+        if CODE is not None and ("var", CODE) in ops:
+            defs = body.defs_of(CODE)
+            okd = True
+            for d in defs:
+                rv = tm.rvalue(d, frozenset()) if d[1] != "term" else ("?", "call")
+                if rv == ("int", 0):
+                    continue
+                if rv[0] == "bin" and rv[1] == "BitOr" and ("var", CODE) in (rv[2], rv[3]):
+                    other = rv[3] if rv[2] == ("var", CODE) else rv[2]
+                    if other[0] == "bin" and other[1] == "Shl" and other[2] == ("int", 1) and (enum_index(other[3]) or 99) <= dt["bits"]:
                         continue
-                    if rv[0] == "bin" and rv[1] == "BitOr" and ("var", CODE) in (rv[2], rv[3]):
-                        other = rv[3] if rv[2] == ("var", CODE) else rv[2]
-                        if other[0] == "bin" and other[1] == "Shl" and other[2] == ("int", 1) and (enum_index(other[3]) or 99) <= dt["bits"]:
-                            continue
-                    okd = False
-                top = (1 << dt["bits"]) - 1 + dt["offset"]
-                good = okd and top <= 255 and body.local_ty(CODE) == "u8"
-                ctx.instance("BITS6", {"code_definitions": len(defs), "max_value": top, "ok": good})
+                okd = False
+            return True, okd and top <= 255 and body.local_ty(CODE) == "u8", len(defs)
+        return False, False, None
+    for s_ in sites:
+        if s_.o.kind == "OVF" and s_.o.sub == "Add":
+            res = [bits6(ops) for ops in s_.ops]
+            if all(r[0] for r in res):
+                good = all(r[1] for r in res)
+                ctx.instance("BITS6", dict({"code_definitions": res[0][2], "max_value": top, "ok": good}, **where(s_)))
                 if good:
-                    lemmas[(DRAW, keys[id(o)])] = ("BITS6", "code is an OR of bits 0..%d, so code + %d <= %d" % (dt["bits"] - 1, dt["offset"], top))
+                    lemma(s_, "BITS6", "code is an OR of bits 0..%d, so code + %d <= %d" % (dt["bits"] - 1, dt["offset"], top))
     # ---- RUN-ORDER: column - offset ------------------------------------------------------------------------------------
     ctx.rule("RUN-ORDER", "columns of a run list are strictly increasing (pushed once per column in column order, list cleared per band) and offset = previous column + "
                           "repeats <= next column (the repeats-1 elements after a run start are its successors column+1..), so column - offset cannot underflow", floor=1)
-    for o in obs:
-        if o.kind == "OVF" and o.sub in ("Sub-call", "Sub"):
-            ops = operands(o)
-            if len(ops) == 2 and OFFSET is not None and ops[1] == ("var", OFFSET):
-                it = item_of(ops[0])
-                conds = {"minuend_is_run_column": it is not None and LR is not None and it[0] == LR.head and it[2] == ["0"],
+    for s_ in sites:
+        if s_.o.kind == "OVF" and s_.o.sub in ("Sub-call", "Sub"):
+            if OFFSET is not None and all(len(ops) == 2 and ops[1] == ("var", OFFSET) for ops in s_.ops):
+                its = [item_of(ops[0]) for ops in s_.ops]
+                conds = {"minuend_is_run_column": all(it is not None and LR is not None and it[0] == LR.head and it[2] == ["0"] for it in its),
                          "run_lists_cleared_per_band_and_only_pushed": bool(getattr(a, "map_ok", False)),
                          "offset_and_repeats_structure": bool(getattr(a, "rle_ok", False)),
                          "one_push_per_colour_and_column_in_column_order": not any(v.rule == "BAND" and re.search(r"colour-key|code-offset|run-list-push|column-loop", v.key) for v in ctx.violations)}
                 good = all(conds.values())
-                ctx.instance("RUN-ORDER", dict(conds, ok=good))
+                ctx.instance("RUN-ORDER", dict(conds, ok=good, **where(s_)))
                 if good:
-                    lemmas[(DRAW, keys[id(o)])] = ("RUN-ORDER", "offset <= column: see rule RUN-ORDER (side conditions checked by BAND and RLE)")
+                    lemma(s_, "RUN-ORDER", "offset <= column: see rule RUN-ORDER (side conditions checked by BAND and RLE)")
     # ---- CACHE-ACCOUNT: self.size == sum of the lengths of the cached buffers ---------------------------------------------
     ctx.rule("CACHE-ACCOUNT", "self.size is changed only by += len of the buffer put under a fresh key and -= len of the value popped; the cache only by get/put/pop_lru in draw: "
                               "size = total length of live cached Vecs (<= address space), so neither the addition overflows nor the subtraction underflows", floor=6)
     okacc = True
     n_size = 0
-    for b in prog.bodies:
-        if b.file != body.file:
-            continue
+    # draw is looked at with its private helpers expanded (they are then not looked at on their own)
+    acct_bodies = [(body if b is plain else b) for b in prog.bodies if b.file == body.file and b.path not in expansions]
+    for b in acct_bodies:
         for (bb, si, rp, st) in __import__("sa.flow", fromlist=["writes_to_field"]).writes_to_field(b, r"\.size$"):
             base_l = (st["place"] if "place" in st else st["dest"])["l"]
             if "SixelImageHandler" not in b.local_ty(base_l):
@@ -2220,9 +2916,7 @@ def total(ctx, a):
                 okacc = False
                 ctx.violation("CACHE-ACCOUNT", b.path, "cache-mutation", "the sixel cache is mutably used by %s outside the get/put/pop_lru accounting of draw" % nm, sites=[b.loc])
     ctors = 0
-    for b in prog.bodies:
-        if b.file != body.file:
-            continue
+    for b in acct_bodies:
         for bb, si, st in b.assigns():
             rv = st["rv"]
             if rv["k"] == "agg" and rv["ak"] == "adt" and rv.get("adt") == "image::SixelImageHandler":
@@ -2240,11 +2934,10 @@ def total(ctx, a):
     if n_size < 2:
         okacc = False
     if okacc and fresh:
-        for o in obs:
-            if o.kind == "OVF" and o.sub in ("Add", "Sub") and o.term["k"] == "assert":
-                ops = operands(o)
-                if ops and ops[0] == ("field", ("arg", 1), "size"):
-                    lemmas[(DRAW, keys[id(o)])] = ("CACHE-ACCOUNT", "size is the total length of the cached buffers (put only after a miss on the same key, popped value subtracted)")
+        for s_ in sites:
+            if (s_.path == DRAW or s_.path in expansions) and s_.o.kind == "OVF" and s_.o.sub in ("Add", "Sub") and s_.o.term["k"] == "assert":
+                if all(ops and ops[0] == ("field", ("arg", 1), "size") for ops in s_.ops):
+                    lemma(s_, "CACHE-ACCOUNT", "size is the total length of the cached buffers (put only after a miss on the same key, popped value subtracted)")
     elif not okacc:
         ctx.anchor("CACHE-ACCOUNT", "accounting", "the cache size accounting is not of the understood shape")
 
@@ -2270,20 +2963,61 @@ def total(ctx, a):
         return False
 
     def assume(b, o):
-        if b.path != DRAW or o.kind != "OVF" or o.sub not in ("Add", "Add-call"):
+        if o.kind != "OVF" or o.sub not in ("Add", "Add-call"):
             return None
-        ops = operands(o)
-        if len(ops) == 2 and all(index_like(x) for x in ops):
+        cps = copies_for(b, o)
+        if cps and all(len(ops) == 2 and all(index_like(x) for x in ops) for ops in (operands_of(t_, tmx) for (t_, tmx, _) in cps)):
             return ("SIZE-BOUND", "both operands are row/column indices or run lengths of an image whose dimensions are below 2^31")
         return None
 
+    helpers = {blk["inl_from"] for blk in body.blocks if blk.get("inl_from")}
+
     def scope(b):
-        return b.path == DRAW or b.closure_root == DRAW
+        # draw, its closures, and the private helpers expanded into it (and their closures)
+        return b.path == DRAW or b.closure_root == DRAW or b.path in helpers or b.closure_root in helpers
 
     cg = prog.callgraph()
     dyn, _ = cg.reach_split([DRAW])
     outside = sorted(p for p in dyn if prog.body(p) is not None and not scope(prog.body(p)) and prog.body(p).file.startswith("src/"))
     ctx.note("TOTAL scope is the handler body only; %d reachable crate bodies are NOT analysed here (quantiser: Image::quantize, ColorPalette, OcTree, KDTree -> C13; "
              "surface.rs accessors -> C07): %s" % (len(outside), ", ".join(outside[:40])))
-    oblrules.run(ctx, "TOTAL", [DRAW], lossy=False, lemmas=lemmas, scope=scope, skip=lambda b: not scope(b), assume_filter=assume, floor_bodies=12,
-                 desc="no reachable panic/overflow/bounds failure in the body of SixelImageHandler::draw (quantiser and surface.rs callees: notes only, see C13/C07)")
+    # Engine workaround (sa/absint.py is not this module's).  Analyzer.widen drops a difference bound on a loop head's phi symbols
+    # when it grew, but the next join derives it afresh (the old state no longer has it, so it is kept), it grows, is dropped
+    # again, .. and states_equal never holds ("absint: no fixpoint", e.g. `while it.next_if(..).is_some() { n += 1 }`, where the
+    # bound between the counter and another phi symbol of the head alternates between present and absent; join_states also
+    # derives vacuous bounds `hi(a) - lo(b)` = 2^64-1 from the intervals, which vanish when widening makes hi(a) infinite and
+    # come back at the next join).  While TOTAL runs, a bound that went missing at a head twice after having been there stays
+    # dropped at that head, and vacuous bounds are not recorded.  Dropping a bound only weakens the abstract state: sound.
+    from .. import absint
+    orig_join, orig_widen = absint.join_states, absint.Analyzer.widen
+
+    def join_without_vacuous_bounds(states, bb, body_):
+        out = orig_join(states, bb, body_)
+        if out is not None:
+            for pq, d_ in list(out.diffs.items()):
+                if d_ >= (1 << 64) - 1:
+                    del out.diffs[pq]
+        return out
+
+    def widen_with_memory(self, old, new, bb):
+        r = orig_widen(self, old, new, bb)
+        if old is None:
+            return r
+        mem = self.__dict__.setdefault("_c12_widen_mem", {}).setdefault(bb, {"seen": set(), "lost": {}})
+        pref = "phi:%d:" % bb
+        here = {pq for pq in old.diffs if pq[0].startswith(pref) or pq[1].startswith(pref)}
+        for pq in (mem["seen"] - here) | {pq for pq in here if pq not in r.diffs}:
+            mem["lost"][pq] = mem["lost"].get(pq, 0) + 1
+        mem["seen"] = (mem["seen"] | here) - set(mem["lost"])
+        for pq in list(r.diffs):
+            if mem["lost"].get(pq, 0) >= 2:
+                del r.diffs[pq]
+        return r
+    absint.Analyzer.widen = widen_with_memory
+    absint.join_states = join_without_vacuous_bounds
+    try:
+        oblrules.run(ctx, "TOTAL", [DRAW], lossy=False, lemmas=lemmas, scope=scope, skip=lambda b: not scope(b), assume_filter=assume, floor_bodies=12,
+                     desc="no reachable panic/overflow/bounds failure in the body of SixelImageHandler::draw (quantiser and surface.rs callees: notes only, see C13/C07)")
+    finally:
+        absint.join_states = orig_join
+        absint.Analyzer.widen = orig_widen
